@@ -96,14 +96,7 @@ func (c *collection) updateIndexedDoc(
 	// The given document may carry only the fields that are being updated. The indexed fields it
 	// does not carry keep their stored values, they must not be indexed as if they were cleared.
 	newDoc := doc
-	for _, field := range c.Definition().CollectIndexedFields() {
-		if _, err := doc.GetValue(field.Name); err == nil {
-			continue
-		}
-		oldVal, err := oldDoc.GetValue(field.Name)
-		if err != nil {
-			continue
-		}
+	setIndexedValue := func(fieldName string, value any) error {
 		if newDoc == doc {
 			newDoc, err = client.NewDocWithID(doc.ID(), c.Definition())
 			if err != nil {
@@ -116,9 +109,30 @@ func (c *collection) updateIndexedDoc(
 				}
 			}
 		}
-		err = newDoc.Set(field.Name, oldVal.Value())
+		return newDoc.Set(fieldName, value)
+	}
+	for _, field := range c.Definition().CollectIndexedFields() {
+		oldVal, oldErr := oldDoc.GetValue(field.Name)
+		newVal, err := doc.GetValue(field.Name)
 		if err != nil {
-			return err
+			if oldErr != nil {
+				continue
+			}
+			err = setIndexedValue(field.Name, oldVal.Value())
+			if err != nil {
+				return err
+			}
+			continue
+		}
+		// A changed value of a counter field is an increment: the value that will be stored, and
+		// that has to be indexed, is the stored value plus the increment.
+		if (field.Typ == client.PN_COUNTER || field.Typ == client.P_COUNTER) && newVal.IsDirty() && oldErr == nil {
+			if sum, ok := addCounterValues(oldVal.Value(), newVal.Value()); ok {
+				err = setIndexedValue(field.Name, sum)
+				if err != nil {
+					return err
+				}
+			}
 		}
 	}
 
@@ -129,6 +143,26 @@ func (c *collection) updateIndexedDoc(
 		}
 	}
 	return nil
+}
+
+// addCounterValues returns the value a counter field holds after the given increment has been
+// applied to the given stored value. It returns false if the values are not of one numeric kind.
+func addCounterValues(stored, increment any) (any, bool) {
+	switch inc := increment.(type) {
+	case int64:
+		if cur, ok := stored.(int64); ok {
+			return cur + inc, true
+		}
+	case float64:
+		if cur, ok := stored.(float64); ok {
+			return cur + inc, true
+		}
+	case float32:
+		if cur, ok := stored.(float32); ok {
+			return cur + inc, true
+		}
+	}
+	return nil, false
 }
 
 func (c *collection) deleteIndexedDoc(
